@@ -41,6 +41,6 @@ if [ $RC -ne 0 ] || [ ! -x "$BIN" ]; then
   rm -f "$BIN"
   exit 2
 fi
-# keep only the 4 most recent build directories
-ls -1dt "$VERIF"/.build/*/ 2>/dev/null | tail -n +5 | xargs -r rm -rf
+# keep only the 24 most recent build directories
+ls -1dt "$VERIF"/.build/*/ 2>/dev/null | tail -n +25 | xargs -r rm -rf
 echo "$BIN"
